@@ -6,7 +6,9 @@ RULE = ("single-operation cases over (sec, nanosec) operands: boundary values on
         "boundary (k*2^32/10^9 neighbourhood), i32 rails, random; non-trivial when a nanosecond operand is not a "
         "multiple of 10^6; distinct by canonical op line")
 ASSUMPTIONS = ["valid DDS time/duration = nanosec < 10^9 after Duration::new/Time::new normalisation",
-               "monotonicity is proved away from i32 saturation of the seconds field (finding D50 at the rail)"]
+               "the tree under check contains fixes/D50.patch (operators on the clamped total of nanoseconds); the operators before it are kept "
+               "as Dur.addOld / Dur.subOld with the regression witness C14_add_monotone_saturation_counterexample",
+               "monotonicity is stated for normalised operands (what Duration::new / Time::new and the wire conversions produce)"]
 NS = 10**9
 I32MAX, I32MIN = 2**31 - 1, -2**31
 
@@ -120,6 +122,7 @@ def oracle(case, out):
             else:
                 sat_involved = any(not (I32MIN <= z[0] - d[0] - 1 and z[0] - d[0] <= I32MAX) for z in (a, b))
         if not le(lo, hi):
+            # cause kept for the (fixed) finding D50: a fixed entry suppresses nothing
             bad(f"not monotone: {lo} > {hi}", cause="seconds-saturate-nanoseconds-wrap" if sat_involved else None)
     return viol
 
@@ -146,12 +149,16 @@ def run(ctx):
 
 LEVEL_TEXT = ("Kernel-checked Lean theorems over ALL nanosecond values < 10^9 and all i32 seconds: the fraction round trip "
               "(C14_fraction_roundtrip), the three conversion chains (behavior Duration, message Time, transport/message "
-              "time chain), normalisation of new/add/sub for all operands, and monotonicity of add/sub for all operands "
-              "away from i32 saturation (partial: at the rail it is false, finding D50 with a kernel-checked witness). "
+              "time chain), normalisation of new/add/sub for ALL operands (C14_new/add/sub_normalized), exactness (the result is the "
+              "sum / difference of the nanosecond totals clamped to the representable range: C14_add_exact, C14_sub_exact; the schoolbook "
+              "carry / borrow away from the rails: C14_add_nosat, C14_sub_nosat) and FULL monotonicity of add / sub / Time-Time in each operand "
+              "for all normalised operands, saturation included (C14_add_monotone, C14_add_monotone_right, C14_sub_monotone, "
+              "C14_sub_antitone_right, C14_timeSub_monotone). The pinned operators were not monotone at the i32 rail (defect D50, found by "
+              "this check, repaired by a fix: commit; kernel-checked regression witness on the old operators). "
               "The model is tied to the code by a differential run of the public From/Add/Sub impls on ~3*10^4 (quick) "
               "boundary-biased operands, and thorough additionally enumerates all 10^9 nanosecond values on the implementation.")
 LEVEL_NOTE = ("Trusted: Lean kernel + propext/Classical.choice/Quot.sound; the hand-written model Model/Time.lean "
               "(u32/i32 casts and saturation modelled explicitly over Nat/Int); the differential harness. "
-              "Monotonicity at i32 saturation is excluded (known finding D50).")
+              "The i64 arithmetic of the repaired operators is modelled over Int (it cannot overflow: |sec| <= 2^31, nanosec < 2^32).")
 TECHNIQUE = "Lean 4 theorems (omega over explicit-width arithmetic) + differential correspondence with the public conversion/arithmetic impls"
 DESIGN_REF = "DESIGN.md section 5 C14"
